@@ -243,8 +243,10 @@ def rl (netpoll : Bool) (proto stream lens dflt : String) (impl : List String) :
       | some evs =>
         let dfl : Int := if df == 0 then MosnVerif.Gen.ReadLoopConn.defaultReadBufferSize else (df : Int)
         -- netpoll mode (kind rlnp): the copies of the statement in the read-timeout timer / event-loop onRead; the timer
-        -- runs on its own goroutine, so the position of `t` among the other tokens is not exact: contents only
-        let P : Params := if netpoll then { network := "tcp", dflt := dfl, shrinks := MosnVerif.Gen.ReadLoopConn.netpollShrinks }
+        -- runs on its own goroutine, so the position of `t` among the other tokens is not exact: contents only.  An observed
+        -- `t` is the timer callback: the first copy in source order (the second one, in the event loop's onRead, needs a
+        -- deadline error from a read that epoll announced as readable)
+        let P : Params := if netpoll then { network := "tcp", dflt := dfl, shrinks := MosnVerif.Gen.ReadLoopConn.netpollShrinks.take 1 }
           else Params.actual dfl
         let m := modelTrace P d evs
         let c := toConn m.2
